@@ -14,7 +14,6 @@ import (
 	"time"
 
 	"github.com/mimiro-io/datahub/internal/jobs"
-	"github.com/mimiro-io/datahub/internal/server"
 	"github.com/mimiro-io/datahub/internal/verifhook"
 )
 
@@ -22,7 +21,7 @@ import (
 var crashPoints = map[string][]string{
 	"store":   {"store.locked", "store.built", "store.idcommitted", "store.committed", "store.metaupdated"},
 	"reject":  {"store.locked"},
-	"backup":  {"backup.tmpcreated", "backup.written", "backup.renamed"},
+	"backup":  {"backup.idcreated", "backup.tmpcreated", "backup.written", "backup.renamed"},
 	"txn":     {"txn.locked", "txn.built", "txn.idcommitted", "txn.committed", "store.committed"},
 	"create":  {"dsm.create.idpersisted", "dsm.create.recordstored", "store.idcommitted", "store.committed", "dsm.create.metastored"},
 	"delete":  {"dsm.delete.begin", "dsm.delete.setpersisted", "store.committed", "dsm.delete.metadeleted"},
@@ -405,63 +404,6 @@ func TestCrash(t *testing.T) {
 	sum.WallSeconds = time.Since(start).Seconds()
 	sum.Tables = []string{fmt.Sprint(outcomes)}
 	_ = enc.Encode(sum)
-}
-
-// followUp writes one more entity to every live dataset of the session and checks that the feed
-// grows by exactly that entry at its end with a larger token.
-func (s *Session) followUp(r *Result) {
-	// the recovered hub creates a dataset: a name never used, an internal id nobody has, born empty, and what is
-	// written to it stays in it (no reuse of internal identifiers)
-	fresh := "followup-" + s.Tag
-	if nd, err := s.W.Dsm.CreateDataset(fresh, nil); err != nil || nd == nil {
-		r.Divs = append(r.Divs, Divergence{Kind: "follow-up-create", Adapter: "go", Query: fresh, Expected: "the recovered hub creates datasets", Actual: fmt.Sprint(err)})
-		return
-	} else {
-		s.Checks += 2
-		for _, dn := range s.W.Dsm.GetDatasetNames() {
-			if od := s.W.Dsm.GetDataset(dn.Name); od != nil && dn.Name != fresh && od.InternalID == nd.InternalID {
-				r.Divs = append(r.Divs, Divergence{Kind: "follow-up-create", Adapter: "go", Query: fresh,
-					Expected: "an internal dataset id nobody has", Actual: fmt.Sprintf("id %d is also the id of %s", nd.InternalID, dn.Name)})
-				return
-			}
-		}
-		if res, err := nd.GetEntities("", 0); err != nil || len(res.Entities) != 0 {
-			r.Divs = append(r.Divs, Divergence{Kind: "follow-up-create", Adapter: "go", Query: fresh, Expected: "a new dataset is empty", Actual: fmt.Sprint(len(res.Entities), err)})
-			return
-		}
-		if ch, err := nd.GetChanges(0, 0, false); err != nil || len(ch.Entities) != 0 {
-			r.Divs = append(r.Divs, Divergence{Kind: "follow-up-create", Adapter: "go", Query: fresh, Expected: "a new dataset has an empty change log", Actual: fmt.Sprint(len(ch.Entities), err)})
-			return
-		}
-	}
-	for _, n := range s.H.Ds {
-		real := s.DsReal(n)
-		if !s.Ad.Exists(s, real) {
-			continue
-		}
-		before, tokBefore, err := s.Ad.Changes(s, real, 0, 0, false)
-		if err != nil {
-			r.Err = "follow-up: " + err.Error()
-			return
-		}
-		ent := s.Concrete(s.H.Ent[0], 1)
-		ent.ID = s.W.EntP + ":followup-" + s.Tag
-		if err := s.Ad.Store(s, real, []*server.Entity{ent}); err != nil {
-			r.Divs = append(r.Divs, Divergence{Kind: "follow-up-write", Adapter: "go", Query: n, Expected: "the recovered hub accepts writes", Actual: err.Error()})
-			return
-		}
-		after, tokAfter, err := s.Ad.Changes(s, real, 0, 0, false)
-		if err != nil {
-			r.Err = "follow-up: " + err.Error()
-			return
-		}
-		s.Checks++
-		if len(after) != len(before)+1 || !sameSeq(before, after[:len(before)]) || tokAfter <= tokBefore {
-			r.Divs = append(r.Divs, Divergence{Kind: "follow-up-write", Adapter: "go", Query: n,
-				Expected: "feed grows by one entry at its end, token increases", Actual: map[string]any{"before": before, "after": after, "tokens": []uint64{tokBefore, tokAfter}}})
-			return
-		}
-	}
 }
 
 var _ = jobs.JobTypeFull
